@@ -3,10 +3,10 @@ CONSTANTS
   Ids = {"x", "y"}
   G = 2
   L = 2
-  Statuses = {"up", "suspect"}
+  Statuses = {"up"}
   T = 2
-  V = 2
+  V = 1
   E = 1
-  TV = 1
+  TV = 2
 INVARIANTS TypeOK Laws
 CHECK_DEADLOCK FALSE
